@@ -3,6 +3,7 @@ mod dispworld;
 mod driver;
 mod evidence;
 mod gen;
+mod matrix;
 mod mon;
 mod monitors;
 mod ops;
